@@ -1,10 +1,44 @@
 (* Executable entry of the extracted C14 model: opcode :: payload. *)
-From GV Require Import Base.Prelude Valid.Overlap Valid.PairSet Valid.OverlapWire.
+From GV Require Import Base.Prelude Valid.Overlap Valid.PairSet Valid.OverlapWire Valid.OverlapOpt.
 
 Definition enc_verdict (v : verdict) : N :=
   match v with VNo => 0 | VConflict => 1 | VUntyped => 2 | VFuel => 3 end.
 
 Definition b2n (b : bool) : N := if b then 1 else 0.
+
+Fixpoint dec_order (cnt : nat) (l : list N) : option (list (bool * nat) * list N) :=
+  match cnt with
+  | O => Some ([], l)
+  | S c =>
+    match l with
+    | isop :: idx :: r =>
+      match dec_order c r with
+      | Some (o, r') => Some ((negb (isop =? 0), nat_of idx) :: o, r')
+      | None => None
+      end
+    | _ => None
+    end
+  end.
+
+Definition first_or_zero (t : text) : N := match t with x :: _ => x | [] => 0 end.
+
+Definition enc_ff (s : pairset) : list N :=
+  flat_map (fun kv => flat_map (fun kb => [first_or_zero (fst kv); first_or_zero (fst kb); b2n (snd kb)]) (snd kv)) s.
+Definition enc_fp (s : opairset) : list N :=
+  flat_map (fun kv => flat_map (fun kb => [fst kv; first_or_zero (fst kb); b2n (snd kb)]) (snd kv)) s.
+
+Definition enc_ev (e : ev) : list N :=
+  match e with
+  | EvStart t a b f => [0; (match t with TFp => 0 | TFf => 1 end); a; b; b2n f]
+  | EvSkip t a b f => [1; (match t with TFp => 0 | TFf => 1 end); a; b; b2n f]
+  end.
+
+(* #ff numbers, ff triples, #fp numbers, fp triples, #log numbers, log (oldest first) *)
+Definition enc_memo (m : memo) : list N :=
+  let ff := enc_ff (m_ff m) in
+  let fp := enc_fp (m_fp m) in
+  let lg := flat_map enc_ev (rev (m_log m)) in
+  N.of_nat (length ff) :: ff ++ N.of_nat (length fp) :: fp ++ N.of_nat (length lg) :: lg.
 
 Definition run (inp : list N) : list N :=
   match inp with
@@ -16,6 +50,23 @@ Definition run (inp : list N) : list N :=
       then [enc_verdict (spec_verdict s d); b2n (spec_conflicts s d);
             N.of_nat (length (doc_fids d)); N.of_nat (length (d_frags d))]
       else [9]
+    | None => [8]
+    end
+  | 4 :: fuel :: no :: r =>
+    (* memoised algorithm: [3] out of fuel, or (1 conflict | 0 none) :: memo tables and memo trace *)
+    match dec_order (nat_of no) r with
+    | Some (order, r') =>
+      match dec_case r' with
+      | Some (s, d) =>
+        if nodupb (doc_all_ids d) then
+          match opt_run s d order (nat_of fuel) with
+          | RFuel => [3]
+          | RConflict m => 1 :: enc_memo m
+          | ROk m => 0 :: enc_memo m
+          end
+        else [9]
+      | None => [8]
+      end
     | None => [8]
     end
   | 2 :: n :: r =>
